@@ -160,6 +160,82 @@ func mkIte(c, a, b string) string {
 	return "(ite " + c + " " + a + " " + b + ")"
 }
 
-func sel(a, i string) string      { return "(select " + a + " " + i + ")" }
+// sel builds (select a i), forwarding through syntactically decidable stores:
+// select(store(a, i, v), i) = v, and stores at a different fresh allocation are skipped.
+func sel(a, i string) string {
+	for strings.HasPrefix(a, "(store ") {
+		parts := splitArgs(a[len("(store ") : len(a)-1])
+		if len(parts) != 3 {
+			break
+		}
+		if parts[1] == i {
+			return parts[2]
+		}
+		if distinctFresh(parts[1], i) {
+			a = parts[0]
+			continue
+		}
+		break
+	}
+	return "(select " + a + " " + i + ")"
+}
+
+// distinctFresh: two different allocation symbols (new_*!N) denote different objects, and bit-vector
+// literals that differ are different indices.
+func distinctFresh(a, b string) bool {
+	if a == b {
+		return false
+	}
+	isNew := func(s string) bool { return strings.HasPrefix(s, "new_") || strings.HasPrefix(s, "|new_") }
+	if isNew(a) && isNew(b) {
+		return true
+	}
+	if strings.HasPrefix(a, "#x") && strings.HasPrefix(b, "#x") {
+		return true
+	}
+	return false
+}
+
+// splitArgs splits the top-level terms of an S-expression body.
+func splitArgs(s string) []string {
+	var out []string
+	depth := 0
+	inq := false
+	start := -1
+	for i := 0; i < len(s); i++ {
+		c := s[i]
+		if c == '|' {
+			inq = !inq
+		}
+		if inq {
+			if start < 0 {
+				start = i
+			}
+			continue
+		}
+		switch c {
+		case '(':
+			if depth == 0 && start < 0 {
+				start = i
+			}
+			depth++
+		case ')':
+			depth--
+		case ' ':
+			if depth == 0 && start >= 0 {
+				out = append(out, s[start:i])
+				start = -1
+			}
+		default:
+			if start < 0 {
+				start = i
+			}
+		}
+	}
+	if start >= 0 {
+		out = append(out, s[start:])
+	}
+	return out
+}
 func sto(a, i, v string) string   { return "(store " + a + " " + i + " " + v + ")" }
 func constArr(sort, v string) string { return "((as const " + sort + ") " + v + ")" }
